@@ -8,7 +8,8 @@ Alpha == {97, SP, TAB, NL, DQ, BS, 233}
 Str(n) == UNION {[1..k -> Alpha] : k \in 0..n}
 Progs == {<<97>>, <<97, SP, 98>>, <<67, 58, BS, 97>>}
 Cases ==
-  {<<p>> \o <<a>> : p \in Progs, a \in Str(MaxLen)}
+  {<<p>> \o <<a>> : p \in Progs, a \in Str(MaxLen - 1)}
+  \cup {<< <<97>>, a >> : a \in Str(MaxLen)}
   \cup {<<p>> \o r : p \in {<<97>>}, r \in UNION {[1..k -> Str(MaxLen - 2)] : k \in 0..MaxArgs}}
 Init == argv \in Cases
 Next == UNCHANGED argv
